@@ -227,23 +227,23 @@ func (e *effects) snapshot() []string {
 	return append([]string{}, e.list...)
 }
 
-type recFs struct {
+type recFs18 struct {
 	afero.Fs
 	tag string
 	eff *effects
 }
 
-func (r recFs) Open(name string) (afero.File, error) {
+func (r recFs18) Open(name string) (afero.File, error) {
 	r.eff.add(r.tag + ":open:" + name)
 	return r.Fs.Open(name)
 }
 
-func (r recFs) OpenFile(name string, flag int, perm os.FileMode) (afero.File, error) {
+func (r recFs18) OpenFile(name string, flag int, perm os.FileMode) (afero.File, error) {
 	r.eff.add(r.tag + ":open:" + name)
 	return r.Fs.OpenFile(name, flag, perm)
 }
 
-func (r recFs) Stat(name string) (os.FileInfo, error) {
+func (r recFs18) Stat(name string) (os.FileInfo, error) {
 	r.eff.add(r.tag + ":stat:" + name)
 	return r.Fs.Stat(name)
 }
@@ -279,7 +279,7 @@ func newFs(tag string, eff *effects) afero.Fs {
 	for n, body := range c18Files {
 		_ = afero.WriteFile(m, n, []byte(body), 0o644)
 	}
-	return recFs{Fs: m, tag: tag, eff: eff}
+	return recFs18{Fs: m, tag: tag, eff: eff}
 }
 
 // ---------------------------------------------------------------------------
@@ -426,7 +426,7 @@ func init() {
 			case r.panic != "":
 				out["st"] = "panic"
 				out["site"] = r.site
-				out["msg"] = trunc(r.panic)
+				out["msg"] = trunc18(r.panic)
 			case r.err != nil:
 				out["st"] = "err"
 				out["msg"] = errText(r.err)
@@ -483,7 +483,7 @@ func errText(err error) string {
 	return fmt.Sprintf("%T", err)
 }
 
-func trunc(s string) string {
+func trunc18(s string) string {
 	if len(s) > 300 {
 		return s[:300]
 	}
